@@ -8,6 +8,7 @@ package zz_verif_sim
 
 import (
 	"math"
+	"strconv"
 	"strings"
 )
 
@@ -355,6 +356,32 @@ func (m *Model) evalCall(e *Expr, asValue bool) (Val, *mErr) {
 		}
 		m.store[args[0].S] = numV(args[1].N)
 		return Val{}, nil
+	case "pclr":
+		if err := want(""); err != nil {
+			return Val{}, err
+		}
+		logCall()
+		m.store = map[string]Val{}
+		return numV(1), nil
+	case "pty":
+		if err := want("s"); err != nil {
+			return Val{}, err
+		}
+		logCall()
+		cur, ok := m.store[args[0].S]
+		switch {
+		case ok && cur.K == 's':
+			m.store[args[0].S] = numV(7)
+			return strV("Bob"), nil
+		case ok && cur.K == 'n':
+			m.store[args[0].S] = strV("x")
+			return numV(5), nil
+		case ok && cur.K == 'b':
+			m.store[args[0].S] = numV(7)
+			return boolV(true), nil
+		}
+		m.store[args[0].S] = numV(7)
+		return numV(7), nil
 	case "pfail":
 		if err := want("n"); err != nil {
 			return Val{}, err
@@ -718,7 +745,7 @@ func (m *Model) Next(arg int) Resp {
 				m.stack = nil
 				return Resp{Kind: rEnd}
 			}
-			if s.Cmd == "wait" {
+			if _, hostsOwn := m.handlers["wait"]; s.Cmd == "wait" && !hostsOwn {
 				if len(args) != 1 || args[0].K != 'n' {
 					return m.fail(&mErr{what: "wait needs exactly one number"})
 				}
@@ -837,6 +864,10 @@ func wordValue(w string) Val {
 			// only simple literals are generated (few digits), exact in binary or compared via the handler's typed parameter
 			if neg {
 				val = -val
+			}
+			// the value of a decimal literal is the nearest float64 (digit-by-digit accumulation is one ulp off for some)
+			if exact, err := strconv.ParseFloat(w, 64); err == nil {
+				val = exact
 			}
 			return numV(val)
 		}
